@@ -417,7 +417,7 @@ def mc_explore(ctx, progs, timeout=900, tag="mc", chunk=None, coverage=False, fu
         pf = os.path.join(ctx.scratch, "%s_progs_%d.json" % (tag, ci))
         write_progs(pf, part)
         r = vlib.tlc(os.path.join(MSPEC, "MpiP2PMC.tla"), env={"PROGS": pf, "MCFULL": "1" if full else "0"},
-                     timeout=timeout, coverage=coverage)
+                     timeout=timeout, coverage=coverage, workers=os.environ.get("VERIF_TLC_WORKERS") or None)
         results.append(r)
         if not r.ok:
             break
